@@ -8,18 +8,19 @@ import json, os, shutil, subprocess, sys, time
 # own (seeded/results.<i>.json); tools/seeds_merge.py merges the shard files into seeded/results.json.
 SHARD = os.environ.get("SEEDS_SHARD", "")
 SI, SN = (int(x) for x in SHARD.split("/")) if SHARD else (0, 1)
-WT = "/tmp/verif-seed-wt" + (str(SI) if SHARD else "")
+WT = "/tmp/verif-seed-wt" + (str(SI) if SHARD else "") + os.environ.get("SEEDS_WT_SUFFIX", "")
+ROOT = os.path.dirname(os.path.dirname(os.path.abspath(__file__)))
 ENV = dict(os.environ, GOFLAGS="-mod=mod", GOPROXY="off", GOSUMDB="off", GOTOOLCHAIN="local")
 def sh(cmd, cwd=None, env=None):
     p = subprocess.run(cmd, shell=True, cwd=cwd, env=env or ENV, stdout=subprocess.PIPE, stderr=subprocess.STDOUT, text=True, errors="replace")
     return p.returncode, p.stdout
 sh(f"git -C /repo worktree remove --force {WT}")
 rc, out = sh(f"git -C /repo worktree add -q --detach {WT} HEAD"); assert rc == 0, out
-res_path = "/verif/seeded/results.json" if not SHARD else f"/verif/seeded/results.{SI}.json"
+res_path = f"{ROOT}/seeded/results.json" if not SHARD else f"{ROOT}/seeded/results.{SI}.json"
 results = json.load(open(res_path)) if os.path.exists(res_path) else {}
-names = [n for n in sorted(os.listdir("/verif/seeded")) if os.path.isdir(f"/verif/seeded/{n}")]
+names = [n for n in sorted(os.listdir(f"{ROOT}/seeded")) if os.path.isdir(f"{ROOT}/seeded/{n}")]
 for pos, name in enumerate(names):
-    d = f"/verif/seeded/{name}"
+    d = f"{ROOT}/seeded/{name}"
     if pos % SN != SI or (sys.argv[1:] and not any(s in name for s in sys.argv[1:])):
         continue
     meta = json.load(open(f"{d}/meta.json"))
@@ -37,7 +38,7 @@ for pos, name in enumerate(names):
     props = sorted(set([meta["property"]] + meta.get("caught_by", [])))
     for p in props:
         t0 = time.time()
-        rc, out = sh(f"python3 /verif/run.py {p} quick", cwd="/verif", env=dict(ENV, VERIF_REPO=WT))
+        rc, out = sh(f"python3 {ROOT}/run.py {p} quick", cwd=ROOT, env=dict(ENV, VERIF_REPO=WT))
         sig = [l.strip()[:200] for l in out.split("\n") if "sig=" in l or "DATA RACE" in l][:1]
         r["checks"][p] = {"rc": rc, "caught": rc == 1, "secs": round(time.time() - t0, 1), "first": sig}
     results[name] = r
